@@ -599,8 +599,9 @@ class ULPITransmitTranslator(Elaboratable):
 
         with m.FSM(domain="usb") as fsm:
 
-            # Mark ourselves as busy whenever we're not in idle.
-            m.d.comb += self.busy.eq(~fsm.ongoing('IDLE'))
+            # Mark ourselves as busy whenever we're not in idle; and as soon as we start
+            # presenting a transmit command, so nothing else tries to claim the bus under it.
+            m.d.comb += self.busy.eq(~fsm.ongoing('IDLE') | (self.tx_valid & self.bus_idle))
 
             # IDLE: our transmitter is ready and
             with m.State('IDLE'):
@@ -633,6 +634,10 @@ class ULPITransmitTranslator(Elaboratable):
                     # Once the PHY has accepted the command byte, we're ready to move into our main transmit state.
                     with m.If(self.ulpi_nxt):
                         m.next = 'TRANSMIT'
+
+                # If we're not (or no longer) able to present a command, release our claim on the data lines.
+                with m.Else():
+                    m.d.usb += self.ulpi_out_req.eq(0)
 
 
             # TRANSMIT: we're in the body of a transmit; the UTMI and ULPI interface signals
